@@ -237,6 +237,17 @@ FCeil(x) ==
     ELSE IF x.neg THEN RoundPack(TRUE, IntPart(x), 0, FALSE)          \* ceiling(-0.5) = -0
     ELSE RoundPack(FALSE, BAdd(IntPart(x), BOne), 0, FALSE)
 
+\* XPath round(): the integer closest to x, a tie goes towards +Infinity; x in [-0.5, -0] gives -0.
+\* Computed exactly (floor(x + 0.5) in double arithmetic is NOT the same: 0.49999999999999994 + 0.5 rounds to 1).
+FRound(x) ==
+    IF ~FIsFin(x) \/ IsIntegral(x) THEN x
+    ELSE LET k    == 0 - x.e                              \* x.e < 0 here
+             I    == BShr(x.m, k)
+             frac == BSub(x.m, BShl(I, k))                \* fraction * 2^k, non-zero
+             c    == BCmp(frac, BShl(BOne, k - 1))        \* fraction against 1/2
+         IN IF x.neg THEN RoundPack(TRUE, IF c > 0 THEN BAdd(I, BOne) ELSE I, 0, FALSE)
+            ELSE RoundPack(FALSE, IF c >= 0 THEN BAdd(I, BOne) ELSE I, 0, FALSE)
+
 \* three-way comparison of non-NaN doubles; +0 = -0
 FCmp3(x, y) ==
     IF FIsInf(x) /\ FIsInf(y) THEN (IF x.neg = y.neg THEN 0 ELSE IF x.neg THEN 0 - 1 ELSE 1)
@@ -375,6 +386,8 @@ FloatSanity ==
     /\ FIsNaN(FDiv(D("0"), D("0"))) /\ FIsNaN(D("abc")) /\ FIsNaN(D("1e5")) /\ FIsNaN(D(""))
     /\ D(" 7 ") = D("7") /\ D(".5") = D("0.5") /\ D("5.") = D("5") /\ FIsNaN(D(".")) /\ FIsNaN(D("1.2.3"))
     /\ FFloor(D("-0.5")) = D("-1") /\ FCeil(D("-0.5")) = FZero(TRUE) /\ FCeil(D("0.2")) = D("1")
+    /\ FRound(D("2.5")) = D("3") /\ FRound(D("-2.5")) = D("-2") /\ FRound(D("-0.5")) = FZero(TRUE) /\ FRound(D("-0.2")) = FZero(TRUE)
+    /\ FRound(D("0.49999999999999994")) = FZero(FALSE) /\ FRound(D("-1.5000000000000002")) = D("-2") /\ FRound(D("2.4")) = D("2")
     /\ FSub(D("1"), D("1")) = FZero(FALSE) /\ FAdd(FZero(TRUE), FZero(TRUE)) = FZero(TRUE)
     /\ FCompare("=", FZero(TRUE), FZero(FALSE)) /\ ~FCompare("=", FNaN, FNaN) /\ FCompare("!=", FNaN, FNaN)
     /\ FCompare("<", D("0.1"), D("0.10000000000000002")) /\ FCompare("=", D("0.1"), D("0.10000000000000000001"))
